@@ -5,7 +5,6 @@ import (
 	"fmt"
 	"io"
 	"os"
-	"runtime/debug"
 	"runtime/pprof"
 	"time"
 
@@ -16,14 +15,6 @@ import (
 
 func main() {
 	// tiny live heap + megabyte-sized compressor states: the default pacer would collect every few cases
-	gcp, lim := 100, int64(0)
-	if v := os.Getenv("C01_GC"); v != "" {
-		fmt.Sscanf(v, "%d,%d", &gcp, &lim)
-	}
-	debug.SetGCPercent(gcp)
-	if lim > 0 {
-		debug.SetMemoryLimit(lim << 20)
-	}
 	logrus.SetOutput(io.Discard)
 	logrus.SetLevel(logrus.PanicLevel)
 	if os.Getenv("C01_CHILD") != "" {
@@ -37,10 +28,10 @@ func main() {
 	runner.Main(runner.Check{
 		ID:    "C01",
 		Level: "model_checking",
-		Rule: "alter (input exploration): base blobs = tiny archives x {gzip eStargz, zstd:chunked, external TOC} x chunk {3,8} x min-chunk {0,16}; for each EVERY byte position x {bit0 flip, bit7 flip, +1, 0x00}, EVERY truncation length, every swap of two members/frames, every payload member replaced by a validly compressed different payload of equal compressed+uncompressed length (chunk payload bytes / tar-header bytes), every TOC field of every entry altered from a menu (and structural edits) with the TOC re-serialised and re-embedded; each altered blob is opened with the ORIGINAL TOC digest D through {memory, bolt-db} metadata x {memory, directory, directory-direct+passthrough fd} chunk cache x {verify-read, verify-prefetch-read, prefetch-verify-read} (quick: 5 diagonal combinations + memreg/remote-blob path for the chunk-3 blobs with every 7th truncation length) and read with the complete plan (whole file, every chunk, every (off,len) of files <= 12 B, twice, passthrough fd, then again after the pristine bytes are served with the same cache); oracle from archive/tar + compress/gzip + zstd + sha256 only. Non-trivial = altered inputs that passed VerifyTOC(D) and reached the read phase. " +
-			"hist (model checking): all histories up to the depth over {Verify(D), Verify(D'), SkipVerify, read all files through RootNode/Lookup/Open/Read (+passthrough fd), Prefetch} x two holders of ONE cached layer obtained from layer.Resolver.Resolve twice over the in-memory registry, blob in {pristine, one chunk validly re-compressed with different payload}; non-trivial = histories with a read after a nil Verify. " +
-			"mount: fs.Mount driven up to the FUSE server start (seamed out) for {disable_verification} x {allow_no_verification} x labels {toc digest absent / D / D'} x {skip-verify label}, single mounts and every ordered pair of mounts of the same layer. " +
-			"sched (model checking): T1=Cache() || T2=VerifyTOC(D);read all || T3=on-demand reads after T2 verified, on a 2-file 3-chunk blob with each chunk corrupted in turn, every schedule within the preemption bound (LockDominance+StateCache); non-trivial = executions in which VerifyTOC returned nil",
+		Rule: "alter (input exploration): base blobs = 3 tiny archives (2-3 regular files, one multi-chunk, plus the builder's 1-byte landmark) x {gzip eStargz, zstd:chunked, external TOC} x chunk {3,8} x min-chunk {0,64} (64 instead of 16: a compressed 8-byte chunk already exceeds 16 bytes, so 16 never packs two chunks into one stream), each < 2 KB, plus a legacy-style variant whose TOC records no digests (pinned by its own D). For each: EVERY byte position x {bit0 flip, bit7 flip, +1, 0x00}, EVERY truncation length, every swap of two members/frames, every payload member replaced by a validly compressed different payload of equal compressed+uncompressed length (first/last/all bytes of each chunk payload; a tar-header byte outside the pinned content), every TOC field of every entry altered from a menu plus structural edits with the TOC re-serialised and re-embedded. Each altered blob is opened with the ORIGINAL TOC digest D through {memory, bolt-db} metadata x {memory, directory, directory-direct + passthrough fd} chunk cache x {verify-read, verify-prefetch-read, prefetch-verify-read} (thorough: all 18 for the gzip blobs of archive 0, a 6-element diagonal elsewhere, 1-4 for zstd:chunked; quick: 7 blobs, 2-4 diagonal combinations; the chunk-3 gzip/external blobs additionally through memreg + remote blob with 64-byte fetch chunks, every 7th truncation length there) and read with the complete plan (whole file, every chunk, every (off,len) of files <= 12 B incl. one past EOF; twice; passthrough fd with merge buffer = 2 chunks / < 1 chunk / whole file; then all again after the pristine bytes are served with the same cache; for zstd the (off,len) grid only in the first pass); after each phase the chunk cache (Membuf / cache directory) is walked. Oracle from archive/tar + compress/gzip + zstd + sha256 only. Non-trivial = altered inputs that passed VerifyTOC(D) and reached the read phase. " +
+			"hist (model checking): all histories up to depth 4 (quick) / 6 over {Verify(D), Verify(D'), SkipVerify, read every file through RootNode/Lookup/Open/Read (+ passthrough fd), Prefetch} x two holders (first operation by h1 w.l.o.g.) of ONE cached layer obtained from layer.Resolver.Resolve twice over the in-memory registry, blob in {pristine, one chunk validly re-compressed with a different payload}, fs cache memory / directory+passthrough (one level less); a violating history is shrunk to a 1-minimal one. Non-trivial = histories with a read after a nil Verify(D). " +
+			"mount: fs.Mount driven up to the FUSE server start (seamed out) for {disable_verification} x {allow_no_verification} x labels {toc digest absent / D / D'} x {skip-verify label}: the 24 single mounts and all 144 ordered pairs of mounts of the same layer on one filesystem. " +
+			"sched (model checking): T1=Cache() || T2=VerifyTOC(D);read all || T3=on-demand chunk reads after T2 verified, on a 2-file 3-chunk blob (+landmark, filtered from the prefetch) with each chunk corrupted in turn, every schedule within the preemption bound (quick: 2 for the middle chunk, 1 elsewhere, memory + directory cache; thorough: 3/2/1/0, + asynchronous directory commit, semaphore width 1 and 2) with LockDominance+StateCache; after every execution everything is read again and the cache walked. Non-trivial = executions in which VerifyTOC returned nil",
 		Assumptions: []string{
 			"sha256 is collision-free: 'belongs to a chunk whose digest matches the TOC pinned by D' is checked as 'equals the original file content'",
 			"single alterations of small blobs (not multi-site edits); replacement members are constructed only when a validly compressed stream of exactly the original compressed length exists (count in Extra)",
